@@ -2,7 +2,7 @@
 # usage: obl.sh <repo-dir> <prop> [pattern] : list the obligations (state, construct, position) a check derives on a tree, without touching /verif/evidence
 export GOFLAGS=-mod=mod GOPROXY=off GOSUMDB=off GOTOOLCHAIN=local GOWORK=off
 t=$(mktemp -d); cp /verif/known_findings.json $t/; mkdir -p $t/evidence
-/verif/bin/bdcheck -prop $2 -dir $1 -verif $t >/dev/null 2>&1
+${BD:-/verif/bin/bdcheck} -prop $2 -dir $1 -verif $t >/dev/null 2>&1
 python3 - $t/evidence/$2.json "${3:-}" <<'PY'
 import json,sys,re
 e=json.load(open(sys.argv[1])); pat=sys.argv[2]
